@@ -200,10 +200,7 @@ impl<'a, I: Iterator<Item = Item>, F: StreamFilter + 'a> Iterator for Compaction
 
                     // NOTE: Only item of this key and thus latest version, so return it no matter what
                     // ...
-                } else if head.key.seqno <= self.gc_seqno_threshold {
-                    // NOTE: Older versions may only be dropped if the version above them is visible
-                    // to every snapshot still in use (all of which are above the watermark),
-                    // otherwise such a snapshot would lose the version it reads
+                } else if peeked.key.seqno < self.gc_seqno_threshold {
                     if head.key.value_type == ValueType::Tombstone && self.evict_tombstones {
                         fail_iter!(self.drain_key(&head.key.user_key, false, false));
                         continue;
